@@ -266,7 +266,8 @@ def slr_polys(rng):
     out = []
     for pt in ("ex", "se", "inv", "sat"):
         for ft in ("ms", "pm", "min", "max", "ls"):
-            n, tb = rng.choice([(16, 4), (32, 4), (64, 8), (64, 4), (48, 6)])
+            # lengths with small and with large prime factors (FFT sizes inside b2a / mag2mp are multiples of the length)
+            n, tb = rng.choice([(16, 4), (32, 4), (64, 8), (64, 4), (48, 6), (26, 4), (34, 4), (38, 4), (52, 4), (58, 6), (46, 4)])
             bsf, d1, d2 = slr.calc_ripples(pt, 0.01, 0.01)
             try:
                 if ft == "ms":
@@ -284,7 +285,7 @@ def slr_polys(rng):
             out.append(dict(kind="dzrf:%s:%s" % (pt, ft), n=n, tb=tb, ptype=pt, ftype=ft, b=c2l(bsf * np.asarray(b))))
     nprng = np.random.default_rng(rng.getrandbits(32))
     for _ in range(14):
-        n = rng.choice([1, 2, 3, 4, 8, 16, 32, 64])
+        n = rng.choice([1, 2, 3, 4, 8, 16, 32, 64, 5, 7, 11, 13, 17, 19, 23, 29, 31, 37, 26, 39])
         b = nprng.normal(size=n) + 1j * nprng.normal(size=n)
         b = b / np.max(np.abs(np.fft.fft(b, 16 * n))) * rng.uniform(0.05, 0.97)
         out.append(dict(kind="random-complex", n=n, b=c2l(b)))
@@ -332,6 +333,10 @@ def slr_expr(c, rf, a_poly):
 def run(ctx):
     ctx.source_hash("sigpy/mri/rf/sim.py", "sigpy/mri/rf/optcont.py", "sigpy/mri/rf/slr.py")
     proof_ok = ctx.prove("Prop_C19.v")
+    # tie by translation (DESIGN 2.8): gen/Gen_bloch.v is regenerated from sim.py / optcont.py / slr.py (translate_all job
+    # "bloch") and compiled; its lemmas state generated loop bodies / loops / functions == coq/model/Bloch.v (and ab2rf == Slr2.ab2rf)
+    from tools import translate_bloch
+    tie_broken = translate_bloch.tie(ctx)    # obligations "translate:sigpy/mri/rf/sim.py, ..." and "tie:generated == hand model (...)"
     core.import_sigpy()
     rng = ctx.rng
     n = ctx.n(240, 4000)
@@ -416,8 +421,8 @@ def run(ctx):
         reported.add(sig)
         ctx.violation("model and implementation disagree on %s (the numeric oracle holds on this input)" % name,
                       {"kind": "correspondence", "broken": "corr:" + name, "case": c}, found_input=False, signature=sig)
-    if (not proof_ok or not corr_ok) and not ctx.violations:
-        broken = getattr(ctx, "broken_proof", {"theorem": "corr:coq-run", "log": "; ".join(ctx.notes)[-1500:]})
+    if (not proof_ok or not corr_ok or tie_broken) and not ctx.violations:
+        broken = getattr(ctx, "broken_proof", tie_broken or {"theorem": "corr:coq-run", "log": "; ".join(ctx.notes)[-1500:]})
         ctx.violation("proof obligation no longer checks: %s" % broken.get("theorem"),
                       {"kind": "proof", "broken": broken}, found_input=False, signature="C19:proof")
 
@@ -455,7 +460,8 @@ def replay(obj):
 TRUSTED = [
     "Coq 8.16.1 kernel + vm_compute (no native_compute, no extraction); Coq Reals axioms as printed by Print Assumptions",
     "hand model coq/model/Bloch.v of abrm / abrm_nd / abrm_hp / abrm_ptx / blochsim / ab2rf for one spatial position, tied by this "
-    "run's correspondence; numpy broadcasting over positions, complex arithmetic, np.abs/np.angle/np.exp as read in the model "
+    "run's correspondence AND by translation (tools/translate_bloch.py regenerates gen/Gen_bloch.v from the source on every run; "
+    "lemmas generated == hand model; the readings the translator trusts are listed in notes/translate_bloch.md); numpy broadcasting over positions, complex arithmetic, np.abs/np.angle/np.exp as read in the model "
     "(exp(1j*angle(r)) = r/|r|, 1 at r = 0)",
     "float runs: cos/sin are data (python math.cos/sin of the angle the harness recomputes; the model looks the table up by its own angle)",
 ]
